@@ -130,6 +130,7 @@ func (*DataProcessor).processCEP
   before projectCep what-the-engine-reported-is-projected: seqeq($arg1, $raw)
   before emitCepResults what-was-projected-is-emitted: seqeq($arg1, $projected)
   atreturn a-row-reaches-the-engine-at-most-once: $fed <= 1
+  atreturn a-row-that-is-kept-and-passes-where-reaches-the-engine: $jerr == nil && $keep && (old(dp.stream.filter) == nil || $pass) && old(dp.stream.cep) != nil ==> $fed == 1
 
 // the consumer of window batches ends only when stopped or when the window's output is closed; every batch it takes is processed
 func (*DataProcessor).startWindowProcessing$1
@@ -781,6 +782,17 @@ func (*DataProcessor).processDirectData
 func (*DataProcessor).processItem
   props C20 C01 C03 C05 C07 C08 C09 C10 C12 C15 C17
   modifies *
+  observe enriched := enrichData
+  observe keep := enrichData#1
+  observe pass := Evaluate
+  count added := Add
+  count cep := processCEP
+  count direct := processDirectData
+  before Evaluate [C05 C01 C08 C09 C10] where-is-asked-about-the-enriched-row: $arg1 == boxof($enriched, map[string]any) && $keep
+  before Add [C05 C01 C08 C09 C10] the-window-gets-the-enriched-row-and-only-a-row-that-passes-where: $arg1 == boxof($enriched, map[string]any) && $keep && (old(dp.stream.filter) == nil || $pass)
+  atreturn [C05 C01 C08 C09 C10] in-window-mode-a-row-that-is-kept-and-passes-where-reaches-the-window-once-and-no-other-row-does: old(dp.stream.config.Mode) != types.ExecCEP && old(dp.stream.config.NeedWindow) ==> $added == ite($keep && (old(dp.stream.filter) == nil || $pass), 1, 0) && $cep == 0 && $direct == 0
+  atreturn the-row-goes-down-exactly-one-path: old(dp.stream.config.Mode) == types.ExecCEP ==> $cep == 1 && $added == 0 && $direct == 0
+  atreturn direct-mode-rows-go-to-the-direct-path: old(dp.stream.config.Mode) != types.ExecCEP && !old(dp.stream.config.NeedWindow) ==> $direct == 1 && $added == 0 && $cep == 0
   before Add callers-row-untouched: mapUnchanged(data)
   before injectGroupKeyExprs computed-keys-go-into-a-private-row: hasFuncGroupKey(dp.stream) ==> fresh($arg1)
 
